@@ -44,6 +44,9 @@ POOL = (
                         'False', 'a', 'A', 'ab', 'aB', 'Ab ', 'a b', 'b',
                         'B', 'abc', 'ABD', 'z', 'Z9', ' a', 'a-b', 'a_b',
                         u'é', u'É')] +
+    # long texts that only differ beyond the 255th character
+    [['s', 'x' * 255], ['s', 'X' * 255 + 'a'], ['s', 'x' * 255 + 'B'],
+     ['s', 'x' * 300 + 'a']] +
     [['b', False], ['b', True]] +
     [['z']]
 )
@@ -134,7 +137,10 @@ def _val(d):
     if k == 6:
         return ['b', bool(d.pick(2))]
     n = d.pick(5)
-    return ['s', ''.join(d.choice(ALPHA) for _ in range(n))]
+    t = ''.join(d.choice(ALPHA) for _ in range(n))
+    if d.chance(1, 12):
+        t = d.choice(['q', 'Q']) * d.choice([254, 255, 256, 1000]) + t
+    return ['s', t]
 
 
 def _build(d):
